@@ -38,7 +38,7 @@ var (
 func finish(outcome string) {
 	fmt.Fprintf(os.Stdout, "\nVRT-OUTCOME: %s\n", outcome)
 	os.Stdout.Sync()
-	os.Exit(0)
+	os.Exit(3)
 }
 
 func next(label, kind string) uint64 {
